@@ -180,8 +180,114 @@ def r19_4(prog: Program, chk: Check) -> None:
         raise AnchorError("_check_call_no_mvv: assignment of the performed result not found")
 
 
+# ------------------------------------------------------------------- R19.5
+def r19_5(prog: Program, chk: Check) -> None:
+    from . import operator_model as omod
+
+    chk.rule(
+        "R19.5",
+        "operator dispatch on known operands as a finite model: visit_UnaryOp, visit_BinOp, _visit_binop_internal and _visit_binop_no_mvv are interpreted from their AST (operator "
+        "tables folded); _check_dunder_call on a known receiver is given its documented contract - it performs type(x).<dunder>(x, *args) and reports an error when the method is "
+        "missing, returns NotImplemented or raises TypeError. For 3 unary and 13 binary operators over 12 literal operands (ints, bools, a float, a complex, str, bytes, a tuple, "
+        "None, an IntEnum member) CPython evaluates the same expression: an unsupported operation is reported exactly when it raises TypeError, and the inferred literal equals "
+        "the result in value and type",
+        floor=3,
+    )
+    model = omod.OperatorModel(prog)
+    classes: Dict[str, List[dict]] = {}
+    counts: Dict[str, int] = {}
+    n = 0
+
+    def note(key: str, bad: bool, d: dict) -> None:
+        counts[key] = counts.get(key, 0) + 1
+        classes.setdefault(key, [])
+        if bad:
+            classes[key].append(d)
+
+    for text, node, env, real in omod.expressions():
+        try:
+            ref = ("value", real())
+        except TypeError:
+            ref = ("TypeError", None)
+        except Exception:  # noqa: BLE001 - ZeroDivisionError, OverflowError ...: outside the property
+            continue
+        n += 1
+        r = model.evaluate(node, env)
+        kind = "unary" if isinstance(node, ast.UnaryOp) else "binary"
+        d = {"expression": text}
+        if r[0] == "crash":
+            note(f"{kind}::no-crash", True, {**d, "error": r[1]})
+            continue
+        note(f"{kind}::no-crash", False, d)
+        (rk, val), msgs = r
+        if ref[0] == "TypeError":
+            note(f"{kind}::reported exactly when CPython raises TypeError", not msgs, {**d, "cpython": "TypeError", "messages": msgs})
+        else:
+            note(f"{kind}::reported exactly when CPython raises TypeError", bool(msgs), {**d, "cpython": repr(ref[1]), "messages": msgs[:2]})
+            same = rk == "literal" and type(val) is type(ref[1]) and (val == ref[1] or (val != val and ref[1] != ref[1]))
+            note(f"{kind}::the inferred literal is the result, in value and type", not msgs and not same, {**d, "cpython": repr(ref[1]), "inferred": repr(val) if rk == "literal" else rk})
+    chk.model_evaluations += n
+    chk.analysed["operator_model"] = {"expressions": n}
+    site = prog.site("name_check_visitor", prog.func("name_check_visitor", "NameCheckVisitor._visit_binop_no_mvv"))
+    for k, bad in sorted(classes.items()):
+        bad.sort(key=lambda x: (len(x["expression"]), repr(x)))
+        chk.ob("R19.5", f"name_check_visitor::operator-model::{k}", not bad, site, f"{counts[k]} expressions, {len(bad)} failing" + (f"; smallest: {bad[0]}" if bad else ""), witness=bad[:5])
+
+
+# ------------------------------------------------------------------- R19.6
+def r19_6(prog: Program, chk: Check) -> None:
+    from . import attribute_model as amod
+
+    chk.rule(
+        "R19.6",
+        "attribute lookup on known objects as a finite model: attributes.get_attribute, _get_attribute_from_known, KnownAttributeHook.get_attribute with _default_transformer and "
+        "_get_attribute_from_mro are interpreted from their AST on 14 real objects (numbers, str, bytes, a tuple, None, classes, a module, an enum member and its class, a user class "
+        "and an instance with a property) x 19 attribute names; typeshed and annotation lookups are switched off. CPython's getattr is the reference: the attribute is missing "
+        "exactly when getattr raises AttributeError, and an inferred literal is the object getattr returns",
+        floor=3,
+    )
+    model = amod.AttributeModel(prog)
+    classes: Dict[str, List[dict]] = {}
+    counts: Dict[str, int] = {}
+    n = 0
+
+    def note(key: str, bad: bool, d: dict) -> None:
+        counts[key] = counts.get(key, 0) + 1
+        classes.setdefault(key, [])
+        if bad:
+            classes[key].append(d)
+
+    for name, obj in amod.OBJECTS:
+        for attr in amod.ATTRS:
+            n += 1
+            ref = amod.reference(obj, attr)
+            r = model.lookup(obj, attr)
+            d = {"expression": f"{name}.{attr}"}
+            if r[0] == "crash":
+                note("no-crash", True, {**d, "error": r[1]})
+                continue
+            note("no-crash", False, d)
+            if ref[0] == "AttributeError":
+                key = "an attribute CPython does not find is reported as missing"
+                if isinstance(obj, type) and issubclass(obj, __import__("enum").Enum) and attr in ("name", "value"):
+                    key += "::member-only attributes of an enum class"
+                note(key, r[0] != "missing", {**d, "result": r[0] if r[0] != "literal" else repr(r[1])[:60]})
+            else:
+                note("an attribute CPython finds is not reported", r[0] == "missing", d)
+                if r[0] == "literal":
+                    note("an inferred literal is the object getattr returns", not (r[1] is ref[1] or r[1] == ref[1]), {**d, "inferred": repr(r[1])[:60], "actual": repr(ref[1])[:60]})
+    chk.model_evaluations += n
+    chk.analysed["attribute_model"] = {"lookups": n}
+    site = prog.site("attributes", prog.func("attributes", "_get_attribute_from_mro"))
+    for k, bad in sorted(classes.items()):
+        bad.sort(key=lambda x: (len(x["expression"]), repr(x)))
+        chk.ob("R19.6", f"attributes::attribute-model::{k}", not bad, site, f"{counts[k]} lookups, {len(bad)} failing" + (f"; smallest: {bad[0]}" if bad else ""), witness=bad[:5])
+
+
 def run(prog: Program, chk: Check) -> None:
     guard(chk, r19_1, prog, chk)
     guard(chk, r19_2, prog, chk)
     guard(chk, r19_3, prog, chk)
     guard(chk, r19_4, prog, chk)
+    guard(chk, r19_5, prog, chk)
+    guard(chk, r19_6, prog, chk)
